@@ -258,6 +258,16 @@ impl Core {
             self.cur_preempts.push((self.depth, p));
             *self.preempt_points.entry(p).or_insert(0) += 1;
         }
+        if let Ok(f) = std::env::var("RDBCHECK_SCHED_TRACE") {
+            // development aid: one line per decision of the first execution of a job
+            use std::io::Write;
+            if self.executions <= 1 {
+                if let Ok(mut fh) = std::fs::OpenOptions::new().create(true).append(true).open(f) {
+                    let line = format!("p{} d{} runnable {:?} current {:?} yielding {} -> {} ({})\n", std::process::id(), self.depth, ids, current.map(usize::from), is_yielding, choice, n.point);
+                    let _ = fh.write_all(line.as_bytes());
+                }
+            }
+        }
         self.depth += 1;
         if self.depth > self.max_depth {
             self.max_depth = self.depth;
